@@ -7,9 +7,11 @@ EXTENDS Fut, MO_Fut
 MOf(site) == MO[site]
 
 O(op, n) == [op |-> op, n |-> n]
-FutCfg(prog) == [mode |-> "fut", count |-> 0, spur |-> FALSE, fx0 |-> 0, prog |-> prog]
-FutCfgS(prog) == [mode |-> "fut", count |-> 0, spur |-> TRUE, fx0 |-> 0, prog |-> prog]
-LatchCfg(count, prog) == [mode |-> "latch", count |-> count, spur |-> FALSE, fx0 |-> 0, prog |-> prog]
+FutCfg(prog) == [mode |-> "fut", count |-> 0, spur |-> FALSE, spw |-> 0, slack |-> 0, fx0 |-> 0, prog |-> prog]
+FutCfgS(prog) == [mode |-> "fut", count |-> 0, spur |-> TRUE, spw |-> 0, slack |-> 0, fx0 |-> 0, prog |-> prog]
+\* futex_wait returns spuriously / with EINTR (once per operation)
+FutCfgW(prog) == [mode |-> "fut", count |-> 0, spur |-> FALSE, spw |-> 1, slack |-> 0, fx0 |-> 0, prog |-> prog]
+LatchCfg(count, prog) == [mode |-> "latch", count |-> count, spur |-> FALSE, spw |-> 0, slack |-> 0, fx0 |-> 0, prog |-> prog]
 
 HUGE == 100
 SV == <<O("sv", 7)>>
@@ -54,11 +56,14 @@ Cfg_qlatch == { LatchCfg(2, << <<O("cd", 1)>>, <<O("cd", 1)>>, <<a>> >>) : a \in
           \cup { LatchCfg(3, << <<O("cd", 2)>>, <<O("cd", 1)>>, <<O("rd", 0), O("of", 0)>> >>) }
 \* spurious failure of the weak compare-exchange
 Cfg_spur == { FutCfgS(<<SV, <<O("of", 0)>>, <<a>> >>) : a \in {O("of", 0), O("get", 0), O("rd", 0)} }
-Cfg_sc == Cfg_q2 \cup Cfg_qseq \cup Cfg_qlatch \cup Cfg_spur
+\* spurious / EINTR returns of futex_wait: wait_for must re-compute the remaining time, get must wait again
+Cfg_spw == { FutCfgW(<<SV, <<O("get", 0)>>, <<O("wf", 3)>> >>), FutCfgW(<< <<O("wf", 3)>>, <<O("wf", 1), O("rd", 0)>> >>),
+             FutCfgW(<< <<O("sl", 2), O("sv", 7)>>, <<O("wf", 4)>> >>) }
+Cfg_sc == Cfg_q2 \cup Cfg_qseq \cup Cfg_qlatch \cup Cfg_spur \cup Cfg_spw
 \* REGRESSION family for findings/C08_waiter_counter_overflow.md (fixed by c8a8a14): with a waiter COUNTER in the futex word
 \* 2^31 slow-path waits carried into the READY bit; waiters now set a flag, a word just below READY must stay below it
-Cfg_overflow == { [mode |-> "fut", count |-> 0, spur |-> FALSE, fx0 |-> READY - 2, prog |-> << <<O("wf", 0), O("wf", 0), O("wf", 1), O("rd", 0)>> >>],
-                  [mode |-> "fut", count |-> 0, spur |-> FALSE, fx0 |-> READY - 2, prog |-> << <<O("wf", 0), O("rd", 0)>>, <<O("wf", 1), O("of", 0)>> >>] }
+Cfg_overflow == { [mode |-> "fut", count |-> 0, spur |-> FALSE, spw |-> 0, slack |-> 0, fx0 |-> READY - 2, prog |-> << <<O("wf", 0), O("wf", 0), O("wf", 1), O("rd", 0)>> >>],
+                  [mode |-> "fut", count |-> 0, spur |-> FALSE, spw |-> 0, slack |-> 0, fx0 |-> READY - 2, prog |-> << <<O("wf", 0), O("rd", 0)>>, <<O("wf", 1), O("of", 0)>> >>] }
 \* liveness (tiny)
 Cfg_live == { FutCfg(<<SV, <<O("get", 0)>>, <<O("wf", 1)>> >>), FutCfg(<<SV, <<O("of", 0)>>, <<O("get", 0)>> >>),
               FutCfg(<<SV, <<O("get", 0)>>, <<O("get", 0)>> >>), LatchCfg(2, << <<O("cd", 1)>>, <<O("cd", 1)>>, <<O("get", 0)>> >>) }
@@ -76,10 +81,10 @@ Cfg_wm == { FutCfg(<<SV, <<W3[i]>>, <<W3[j]>> >>) : <<i, j>> \in {p \in (1..3) \
 Cfg_wm3 == { FutCfg(<<SV, <<O("get", 0)>>, <<O("of", 0)>>, <<O("rd", 0)>> >>), FutCfg(<<SV, <<O("of", 0)>>, <<O("of", 0)>>, <<O("get", 0)>> >>),
              FutCfg(<<SV, <<O("wf", 1)>>, <<O("of", 0)>>, <<O("get", 0)>> >>), LatchCfg(2, << <<O("cd", 1)>>, <<O("cd", 1)>>, <<O("get", 0)>>, <<O("of", 0)>> >>) }
 
-Next == \/ \E t \in Thr : Step(t, MOf) \/ FireMC(t)
+Next == \/ \E t \in Thr : Step(t, MOf) \/ FireMC(t) \/ SpurMC(t)
         \/ (AllDone /\ UNCHANGED vars)
 Spec == Init /\ [][Next]_vars
-FairSpec == Spec /\ \A t \in 1..4 : WF_vars(t \in Thr /\ (Step(t, MOf) \/ FireMC(t)))
+FairSpec == Spec /\ \A t \in 1..4 : WF_vars(t \in Thr /\ (Step(t, MOf) \/ FireMC(t)))   \* (spurious returns are not forced)
 
 \* hide the ghost event from the state identity
 View == <<cfg, ms, pc, L, H, nx, now>>
